@@ -5,6 +5,7 @@ import (
 	"context"
 	"fmt"
 	"io"
+	"mime/multipart"
 	"net/http"
 	"net/http/httptest"
 	"reflect"
@@ -32,6 +33,8 @@ type c15Case struct {
 }
 
 type c15World struct {
+	// opts: ONE Options value used by every request of the "*_sharedopts" operations, as a server configures it once
+	opts   *openapi3filter.Options
 	doc    *openapi3.T
 	mux    routers.Router
 	legacy routers.Router
@@ -50,10 +53,20 @@ func c15Doc(idx int) string {
          "responses":{"200":{"description":"ok"}}},
  "put":{"requestBody":{"required":true,"content":{"application/json":{"schema":{"$ref":"#/components/schemas/Dflt"}}}},
          "responses":{"200":{"description":"ok"}}}},
+ "/mp":{"post":{"requestBody":{"required":true,"content":{
+           "multipart/form-data":{"schema":{"$ref":"#/components/schemas/MP"}},
+           "application/json":{"schema":{"$ref":"#/components/schemas/MP"}}}},
+         "responses":{"200":{"description":"ok"}}}},
+ "/form":{"post":{"requestBody":{"required":true,"content":{
+           "application/x-www-form-urlencoded":{"schema":{"$ref":"#/components/schemas/FD"}},
+           "application/json":{"schema":{"$ref":"#/components/schemas/FD"}}}},
+         "responses":{"200":{"description":"ok"}}}},
  "/secure":{"post":{"security":[{"key":[]}],
          "requestBody":{"required":true,"content":{"application/json":{"schema":{"$ref":"#/components/schemas/Item"}}}},
          "responses":{"200":{"description":"ok"}}}}},
 "components":{"securitySchemes":{"key":{"type":"apiKey","in":"header","name":"X-Key"}},"schemas":{
+ "MP":{"type":"object","properties":{"name":{"type":"string"}},"additionalProperties":{"properties":{"tag":{"type":"string"}}}},
+ "FD":{"type":"object","required":["kind"],"properties":{"name":{"type":"string"},"kind":{"type":"string","default":"cat"}}},
  "Item":{"type":"object","required":["id"],"properties":{"id":{"type":"integer"},
    "tags":{"type":"array","uniqueItems":true,"items":{"type":"string","pattern":"^c%dp[a-z]*$"}}}},
  "Dflt":{"type":"object","properties":{"o":{"type":"object","default":{},"properties":{"z":{"type":"integer","default":3},
@@ -68,7 +81,7 @@ func c15NewWorld(idx int) *c15World {
 	if err := d.Validate(context.Background()); err != nil {
 		panic("harness: c15 doc: " + err.Error())
 	}
-	w := &c15World{doc: d}
+	w := &c15World{doc: d, opts: &openapi3filter.Options{}}
 	if w.mux, err = gorillamux.NewRouter(d); err != nil {
 		panic(err)
 	}
@@ -147,6 +160,38 @@ func c15Call(w *c15World, op string, v int, idx int) string {
 			return regexp.Compile("(?i)" + expr)
 		}}
 		if err := openapi3filter.ValidateRequest(context.Background(), &openapi3filter.RequestValidationInput{Request: req, PathParams: pp, Route: route, Options: opts}); err != nil {
+			return "reject"
+		}
+		return "ok"
+	case "vreq_multipart_addprops", "vreq_json_addprops":
+		// one component schema (own properties + additionalProperties with properties of its own) behind a multipart and a JSON body
+		var req *http.Request
+		if op == "vreq_multipart_addprops" {
+			var buf bytes.Buffer
+			mw := multipart.NewWriter(&buf)
+			mw.SetBoundary("verifboundary")
+			mw.WriteField("name", []string{"n", "m", "o"}[v])
+			mw.Close()
+			req = httptest.NewRequest("POST", "/mp", &buf)
+			req.Header.Set("Content-Type", mw.FormDataContentType())
+		} else {
+			req = mkReq("POST", "/mp", []string{`{"name":"n","tag":5}`, `{"name":7}`, `{"name":"n","tag":{"tag":"t"}}`}[v])
+		}
+		return validateReq(w.mux, req)
+	case "vreq_form_sharedopts", "vreq_json_defaults_sharedopts":
+		// every request of these two operations is validated with the SAME *Options (defaults are to be installed)
+		var req *http.Request
+		if op == "vreq_form_sharedopts" {
+			req = httptest.NewRequest("POST", "/form", strings.NewReader([]string{"name=tom&kind=dog", "kind=cat", "name=a&kind=b"}[v]))
+			req.Header.Set("Content-Type", "application/x-www-form-urlencoded")
+		} else {
+			req = mkReq("POST", "/form", []string{`{"name":"tom"}`, `{"name":5}`, `{"kind":"dog"}`}[v])
+		}
+		route, pp, err := w.mux.FindRoute(req)
+		if err != nil {
+			return "noroute"
+		}
+		if err := openapi3filter.ValidateRequest(context.Background(), &openapi3filter.RequestValidationInput{Request: req, PathParams: pp, Route: route, Options: w.opts}); err != nil {
 			return "reject"
 		}
 		return "ok"
